@@ -228,6 +228,10 @@ func init() {
 		Assume:  []string{"the standard's set definitions as transcribed in verif/model (cross-checked by WPT through C01)"},
 		Trusted: []string{"verif/model predicates"},
 		Body: func(c *fw.Ctx) {
+			if !impl.DelegateAvailable {
+				c.Broken("the implementation no longer exposes DecodePercentEncoded on its parser value: harness binding gone")
+				return
+			}
 			c.Space("tables")
 			for i := range namedSets {
 				ns := &namedSets[i]
